@@ -2,6 +2,7 @@
 #include <math.h>
 
 #include <numeric>
+#include <thread>
 
 #include <phosg/Math.hh>
 #include <phosg/Random.hh>
@@ -104,40 +105,75 @@ static void run_random_int(const Case& c) {
   ctx().cls(span <= 0x100 ? "random_int:span<=2^8" : span <= 0x10000 ? "random_int:span<=2^16" : span <= 0x100000000ULL ? "random_int:span<=2^32" : "random_int:span>2^32");
 }
 
-// case: n = [size0, size1, ...]: successive random_data calls into guarded buffers
+// case: n = [size0, size1, ...]: successive random_data calls into guarded buffers.
+// random_data keeps a thread-local pool of bytes read from /dev/urandom; the sequence runs on a fresh thread so
+// that the pool starts empty and the outcome is a function of the case alone (replayable).
+static void check_filled(const uint8_t* p, size_t sz, uint8_t fill, const char* what, size_t call) {
+  if (sz < 32) return;
+  bool constant = true;
+  for (size_t g = 1; g < sz; g++) constant &= (p[g] == p[0]);
+  VCHECK(!constant, "random-data-constant", what, "(", sz, ") produced a constant byte (call #", call, ")");
+  // a short fill leaves the pre-fill pattern at one end; 16 untouched bytes have probability 2^-128
+  bool tail = true, head = true;
+  for (size_t g = 0; g < 16; g++) {
+    tail &= (p[sz - 16 + g] == fill);
+    head &= (p[g] == fill);
+  }
+  VCHECK(!tail, "random-data-short", what, "(", sz, ") left the last 16 bytes untouched (call #", call, ")");
+  VCHECK(!head, "random-data-short-head", what, "(", sz, ") left the first 16 bytes untouched (call #", call, ")");
+  // ... or somewhere in the middle: no run of 24 untouched bytes anywhere (2^-192 per position)
+  size_t run = 0;
+  for (size_t g = 0; g < sz; g++) {
+    run = (p[g] == fill) ? run + 1 : 0;
+    VCHECK(run < 24, "random-data-hole", what, "(", sz, ") left 24 consecutive bytes untouched ending at offset ", g, " (call #", call, ")");
+  }
+}
+
+static void random_data_sequence(const Case& c, std::string* failure_sig, std::string* failure_msg) {
+  try {
+    for (size_t k = 0; k < c.n.size(); k++) {
+      size_t sz = c.u(k);
+      // (a) into the middle of a guarded buffer
+      std::vector<uint8_t> buf(sz + 32, 0xA5);
+      phosg::random_data(buf.data() + 16, sz);
+      for (size_t g = 0; g < 16; g++) {
+        VCHECK(buf[g] == 0xA5 && buf[16 + sz + g] == 0xA5, "random-data-guard", "random_data(", sz, ") wrote outside the requested bytes (call #", k, ")");
+      }
+      check_filled(buf.data() + 16, sz, 0xA5, "random_data(void*)", k);
+      // (b) into an exactly-sized heap block: ASan sees the first byte past the end
+      uint8_t* exact = static_cast<uint8_t*>(malloc(sz ? sz : 1));
+      memset(exact, 0x5A, sz);
+      phosg::random_data(exact, sz);
+      std::vector<uint8_t> copy(exact, exact + sz);
+      free(exact);
+      check_filled(copy.data(), sz, 0x5A, "random_data(void*) exact block", k);
+      // (c) the string overload (zero-initialised result)
+      std::string s = phosg::random_data(sz);
+      VCHECK(s.size() == sz, "random-data-size", "random_data(", sz, ").size() == ", s.size());
+      check_filled(reinterpret_cast<const uint8_t*>(s.data()), sz, 0x00, "random_data(size)", k);
+    }
+  } catch (const Fail& f) {
+    *failure_sig = f.sig;
+    *failure_msg = f.msg;
+  } catch (const std::exception& e) {
+    *failure_sig = "unexpected-exception";
+    *failure_msg = e.what();
+  }
+}
+
 static void run_random_data(const Case& c) {
   bool nt = false;
+  uint64_t total = 0;
   for (size_t k = 0; k < c.n.size(); k++) {
-    size_t sz = c.u(k);
-    if (sz > (1 << 20)) throw std::logic_error("size outside domain");
-    // exactly-sized heap block: ASan sees the first byte past the end; explicit guards on both sides too
-    std::vector<uint8_t> buf(sz + 32, 0xA5);
-    phosg::random_data(buf.data() + 16, sz);
-    for (size_t g = 0; g < 16; g++) {
-      VCHECK(buf[g] == 0xA5 && buf[16 + sz + g] == 0xA5, "random-data-guard", "random_data(", sz, ") wrote outside the requested bytes (call #", k, ")");
-    }
-    uint8_t* exact = static_cast<uint8_t*>(malloc(sz ? sz : 1));
-    phosg::random_data(exact, sz);
-    free(exact);
-    std::string s = phosg::random_data(sz);
-    VCHECK(s.size() == sz, "random-data-size", "random_data(", sz, ").size() == ", s.size());
-    if (sz >= 32) {
-      bool constant = true;
-      for (size_t g = 1; g < sz; g++) constant &= (buf[16 + g] == buf[16]);
-      VCHECK(!constant, "random-data-constant", "random_data(", sz, ") filled a constant byte");
-      bool still_fill = true;
-      for (size_t g = 0; g < sz; g++) still_fill &= (buf[16 + g] == 0xA5);
-      VCHECK(!still_fill, "random-data-unfilled", "random_data(", sz, ") left the buffer untouched");
-      // the tail must be written too (a short fill would leave the 0xA5 pattern in the last 16 bytes)
-      bool tail_fill = true;
-      for (size_t g = sz - 16; g < sz; g++) tail_fill &= (buf[16 + g] == 0xA5);
-      VCHECK(!tail_fill, "random-data-short", "random_data(", sz, ") left the last 16 bytes untouched");
-      bool head_fill = true;
-      for (size_t g = 0; g < 16; g++) head_fill &= (buf[16 + g] == 0xA5);
-      VCHECK(!head_fill, "random-data-short-head", "random_data(", sz, ") left the first 16 bytes untouched");
-    }
-    if (sz > 4096) nt = true;
+    if (c.u(k) > (1 << 20)) throw std::logic_error("size outside domain");
+    if (c.u(k) > 4096) nt = true;
+    total += 3 * c.u(k);
   }
+  std::string sig, msg;
+  std::thread t(random_data_sequence, std::cref(c), &sig, &msg);
+  t.join();
+  if (!sig.empty()) VFAIL(sig, msg);
+  if (total > 4096) ctx().cls("random_data:sequence-crosses-a-pool-refill");
   if (nt || c.n.size() >= 3) ctx().nontrivial_case();
 }
 
